@@ -980,6 +980,18 @@ class Translator:
                 self.bad(node, f"key of type {kx.typ} for a bool-keyed dict place")
             p = self.read_place(pk, env, node)
             return V(f"(if {kx.term} then {p.term}.2 else {p.term}.1)", unparen(split_prod(p.typ)[0]))
+        one = lambda a: isinstance(a, ast.Constant) and isinstance(a.value, str) and len(a.value) == 1
+        if isinstance(f, ast.Attribute) and f.attr == "split" and len(node.args) == 1 and not kw and one(node.args[0]):
+            x = self.expr(f.value, env)
+            if x.typ != "Str":
+                self.bad(node, f"split() of {x.typ}")
+            return V(f"(PyRt.strSplit {ord(node.args[0].value)} {x.term})", "List Str")       # a one-character separator
+        if (isinstance(f, ast.Attribute) and f.attr == "replace" and len(node.args) == 2 and not kw and one(node.args[0])
+                and isinstance(node.args[1], ast.Constant) and node.args[1].value == ""):
+            x = self.expr(f.value, env)
+            if x.typ != "Str":
+                self.bad(node, f"replace() of {x.typ}")
+            return V(f"(PyRt.strRemove {ord(node.args[0].value)} {x.term})", "Str")           # `s.replace(c, "")`
         if isinstance(f, ast.Attribute) and f.attr == "rstrip" and len(node.args) == 1 and not kw:
             x = self.expr(f.value, env)
             if x.typ == "Option Bytes":
@@ -1716,6 +1728,19 @@ class Translator:
             if v.typ == inner:
                 env2, line = self.bind(t.left, V(f"(Option.getD {x.term} {v.term})", inner), env, st)
                 return line + "\n" + self.block(rest, env2, frame)
+        if (self.spec.get("narrow_not_none") and isinstance(t, ast.Compare) and len(t.ops) == 1 and isinstance(t.ops[0], ast.IsNot)
+                and isinstance(t.left, ast.Name) and isinstance(t.comparators[0], ast.Constant) and t.comparators[0].value is None
+                and t.left.id in env and env[t.left.id].typ.startswith("Option ") and t.left.id not in self.spec.get("maybe_locals", {})):
+            # spec `narrow_not_none`: `if x is not None: …` — inside, `x` is the value itself
+            x = env[t.left.id]
+            inner_t = elem_type(x.typ)
+            nv = self.fresh("py_n")
+            env_s = dict(env)
+            env_s[t.left.id] = V(nv, inner_t)
+            k = ContFrame(self, frame, rest)
+            a = self.block(st.body, env_s, k)
+            b = self.block(st.orelse, env, k)
+            return f"match {x.term} with\n| some {nv} => (\n{ind(a)})\n| none => (\n{ind(b)})"
         if isinstance(st.test, (ast.BoolOp, ast.UnaryOp, ast.Name, ast.Attribute)):
             cond = self.as_condition(st.test, env)
             if cond is not st.test:
